@@ -25,7 +25,8 @@ Min(a, b) == IF a <= b THEN a ELSE b
 
 \* events that are consequences of the preceding entry-point event (deferred checks of a step run
 \* at the first event that is not one of these)
-Follower(e) == e.ev \in {"Complete", "Tx", "Surface", "Settings"}
+\* ("Eid" is harness bookkeeping: the engine-internal id of the operation just submitted)
+Follower(e) == e.ev \in {"Complete", "Tx", "Surface", "Settings", "Eid"}
 
 IsAckType(t) == t \in {"PUBACK", "PUBREC", "PUBCOMP", "SUBACK", "UNSUBACK"}
 
